@@ -314,14 +314,34 @@ func (e *wireExec) construct(i int, ts TokSpec) {
 		return
 	}
 	o.Eval("C10")
+	// what a constructor must refuse
+	mustRefuse := ""
+	switch {
+	case ts.Kind == "dlg" && ts.Dlg.NonceLen > 0 && ts.Dlg.NonceLen < 12, ts.Kind == "inv" && ts.Inv.NonceLen > 0 && ts.Inv.NonceLen < 12:
+		mustRefuse = "a nonce shorter than 12 bytes"
+	case ts.Kind == "dlg" && (ts.Dlg.Iss < 0 || ts.Dlg.Aud < 0):
+		mustRefuse = "an undefined issuer or audience"
+	case ts.Kind == "inv" && (ts.Inv.Iss < 0 || ts.Inv.Sub < 0):
+		mustRefuse = "an undefined issuer or subject"
+	}
+	if mustRefuse != "" {
+		o.Sig("C10", "constructor-refuses", ts.Kind, mustRefuse, err != nil)
+		if err == nil && !isNilTok(obj) {
+			o.Violate("C10", "constructor-accepted-ill-formed", fmt.Sprintf("%s constructor accepted %s", ts.Kind, mustRefuse), map[string]string{"what": mustRefuse})
+		}
+	}
 	if err != nil || obj == nil {
 		o.Logf("token %d: constructor refused", i)
 		o.Probe("constructor_refused")
 		return
 	}
 	wellFormed(o, obj, "constructor")
-	ent := e.cast.ent(ts.iss())
-	alg := e.cast[ts.iss()%len(e.cast)].Alg
+	issIdx := ts.iss()
+	if issIdx < 0 {
+		issIdx = 0
+	}
+	ent := e.cast.ent(issIdx)
+	alg := e.cast[issIdx%len(e.cast)].Alg
 	w := &wireTok{spec: ts, obj: obj, alg: alg, intFlt: specHasIntegralFloat(ts), rawStr: specHasRawStr(ts)}
 	var c cid.Cid
 	reseed(e.t, e.seed, fmt.Sprint("seal", i))
